@@ -209,6 +209,12 @@ class Controller(object):
             return self.send_error(mid, cid, msg, str(e), cast=cast,
                                    errno=errors.MESSAGE_ERROR)
         except ConflictError as e:
+            if cid is None:
+                # a command raised by a signal (quit, reload) has no client
+                # that could retry it: do it as soon as the running command
+                # has finished instead of dropping it
+                self.loop.call_later(0.1, self.dispatch, job)
+                return
             # conflicts between two commands, sending error...
             return self.send_error(mid, cid, msg, str(e), cast=cast,
                                    errno=errors.COMMAND_ERROR)
